@@ -377,47 +377,7 @@ func init() {
 				}
 			}
 		}
-		// frames and messages with UNREGISTERED discriminators: the failing look-up must not touch shared state either
-		type badItem struct {
-			ty   int
-			wire []byte
-			want string
-		}
-		var bads []badItem
-		for _, t := range schema.Types {
-			for _, op := range t.fieldOps() {
-				if op.K != "union" {
-					continue
-				}
-				kop := t.fieldOps()[op.Key]
-				perType := 0
-				for n, kv := range nearMissKeys(g, schema.Tables[op.Tbl]) {
-					if n%5 != 0 || perType >= 5 {
-						continue
-					}
-					perType++
-					if kop.K == "scalar" {
-						kv.N &= maxOf(kop.W)
-					} else if len(kv.S) > kop.N {
-						continue
-					}
-					keyTrim := kv
-					if kv.K == 's' {
-						keyTrim = &Val{K: 's', S: bytes.TrimRight(kv.S, " ")}
-					}
-					if _, registered := lookupEntry(schema.Tables[op.Tbl], keyTrim); registered {
-						continue // masked / trimmed onto a registered key
-					}
-					bad := g.msg(t.ID, true, 0)
-					bad.Fs[op.Key] = kv
-					if wire, ok := renderPinned(bad); ok {
-						// expected outcome by the property itself (an unregistered key is an error); NOT pre-computed by a sequential
-						// decode, so that the first look-up of each unknown key happens inside the parallel phase
-						bads = append(bads, badItem{t.ID, wire, "err"})
-					}
-				}
-			}
-		}
+		bads := unknownKeyWires(g)
 		beginPhase("16 goroutines encoding and decoding their own messages")
 		workers := 16
 		loops := 3
@@ -512,5 +472,293 @@ func init() {
 			o.violate(Violation{Property: "C20", Kind: "direct", What: fmt.Sprintf("%d results of parallel encode/decode differ from the sequential results", mism), Case: c, Key: "parallel"})
 		}
 		return map[string]any{"goroutines": workers, "items": len(items), "loops": loops, "race_detector": raceEnabled}
+	}
+}
+
+// frames and messages with UNREGISTERED discriminators (expected outcome by the property itself: an unregistered key is
+// an error; NOT pre-computed by a sequential decode, so that the first look-up of each unknown key can happen inside a
+// parallel phase)
+type badItem struct {
+	ty   int
+	wire []byte
+	want string
+}
+
+func unknownKeyWires(g *Gen) []badItem {
+	var bads []badItem
+	for _, t := range schema.Types {
+		for _, op := range t.fieldOps() {
+			if op.K != "union" {
+				continue
+			}
+			kop := t.fieldOps()[op.Key]
+			perType := 0
+			for n, kv := range nearMissKeys(g, schema.Tables[op.Tbl]) {
+				if n%5 != 0 || perType >= 5 {
+					continue
+				}
+				perType++
+				if kop.K == "scalar" {
+					kv.N &= maxOf(kop.W)
+				} else if len(kv.S) > kop.N {
+					continue
+				}
+				keyTrim := kv
+				if kv.K == 's' {
+					keyTrim = &Val{K: 's', S: bytes.TrimRight(kv.S, " ")}
+				}
+				if _, registered := lookupEntry(schema.Tables[op.Tbl], keyTrim); registered {
+					continue // masked / trimmed onto a registered key
+				}
+				bad := g.msg(t.ID, true, 0)
+				bad.Fs[op.Key] = kv
+				if wire, ok := renderPinned(bad); ok {
+					bads = append(bads, badItem{t.ID, wire, "err"})
+				}
+			}
+		}
+	}
+	return bads
+}
+
+// ---- C09PAR: hostile inputs decoded by many goroutines at once (run under the race detector as a second pass of C09):
+// a decoder that memoises look-up failures, caches, or otherwise writes shared state on its error paths aborts the
+// process ("fatal error: concurrent map writes") only when two hostile frames are decoded at the same time ----
+func init() {
+	suites["C09PAR"] = func(o *Out, g *Gen, thorough bool) map[string]any {
+		type hostile struct {
+			ty   int
+			wire []byte
+		}
+		var hs []hostile
+		for _, b := range unknownKeyWires(g) {
+			hs = append(hs, hostile{b.ty, b.wire})
+		}
+		per := 2
+		if thorough {
+			per = 12
+		}
+		for _, t := range schema.Types {
+			for i := 0; i < per; i++ {
+				v := g.msg(t.ID, true, 0)
+				wire, ok := renderPinned(v)
+				if !ok || len(wire) == 0 {
+					continue
+				}
+				hs = append(hs, hostile{t.ID, wire[:g.r.Intn(len(wire))]}) // truncated
+				fl := append([]byte{}, wire...)
+				fl[g.r.Intn(len(fl))] ^= byte(1 << uint(g.r.Intn(8)))
+				hs = append(hs, hostile{t.ID, fl}) // one flipped bit
+				rnd := make([]byte, g.r.Intn(48))
+				g.r.Read(rnd)
+				hs = append(hs, hostile{t.ID, rnd})
+			}
+		}
+		workers := 16
+		loops := 2
+		if thorough {
+			loops = 10
+		}
+		res := make([][]string, workers)
+		beginPhase(fmt.Sprintf("%d goroutines decoding %d hostile inputs (unknown discriminators, truncated, bit-flipped, random)", workers, len(hs)))
+		var wg sync.WaitGroup
+		for w := 0; w < workers; w++ {
+			wg.Add(1)
+			res[w] = make([]string, len(hs))
+			go func(w int) {
+				defer wg.Done()
+				for l := 0; l < loops; l++ {
+					for i := range hs {
+						ix := (i + w*(l+1)) % len(hs)
+						if l == 0 {
+							ix = i // first pass: every goroutine meets each input at about the same moment
+						}
+						d := goDec(hs[ix].ty, hs[ix].wire, BufMode{})
+						if l == 0 || res[w][ix] == "ok" || res[w][ix] == "err" {
+							res[w][ix] = d.Class
+						}
+					}
+				}
+			}(w)
+		}
+		wg.Wait()
+		begin("")
+		for i, h := range hs {
+			line := fmt.Sprintf("dec %d %s", h.ty, hexOf(h.wire))
+			seq := goDec(h.ty, h.wire, BufMode{})
+			o.n++
+			o.stat("hostile-parallel:" + seq.Class)
+			for w := 0; w < workers; w++ {
+				if res[w][i] != seq.Class || (seq.Class != "ok" && seq.Class != "err") {
+					o.violate(Violation{Property: "C09", Kind: "direct", What: "a hostile input decoded by 16 goroutines at once: outcome " + res[w][i] + ", alone: " + seq.Class,
+						Case: line, Expected: "ok or err, the same as alone", Observed: res[w][i], Key: "hostile-parallel"})
+					break
+				}
+			}
+		}
+		return map[string]any{"goroutines": workers, "hostile_inputs": len(hs), "race_detector": raceEnabled}
+	}
+}
+
+// ---- C20 (continued): results must not depend on what the library was asked EARLIER. The same raw field bytes are read
+// (and the same texts written) under every pad byte / pad side the protocols use, interleaved; messages whose text
+// fields all hold the same few raw byte strings are decoded back to back. A memo table, an interning cache or scratch
+// state keyed by less than the full call shows up as a disagreement with the (stateless) model. ----
+func init() {
+	prev := suites["C20"]
+	suites["C20"] = func(o *Out, g *Gen, thorough bool) map[string]any {
+		res := prev(o, g, thorough)
+		alphabet := []byte{'0', ' ', 0, 'a', '0', ' '}
+		pads := []struct {
+			pad  int
+			left bool
+		}{{' ', false}, {' ', true}, {'0', true}, {'0', false}, {0, false}, {0, true}}
+		pool := map[int][][]byte{}
+		raw := func(n int) []byte {
+			if len(pool[n]) < 3 {
+				b := make([]byte, n)
+				for i := range b {
+					b[i] = alphabet[g.r.Intn(len(alphabet))]
+				}
+				pool[n] = append(pool[n], b)
+				return b
+			}
+			return pool[n][g.r.Intn(3)]
+		}
+		rounds := 2
+		if thorough {
+			rounds = 8
+		}
+		for r := 0; r < rounds; r++ {
+			for _, n := range []int{1, 2, 3, 6, 10} {
+				for _, ix := range g.r.Perm(len(pads)) {
+					p := pads[ix]
+					b := raw(n)
+					corrRop(o, Op{K: "fixed", N: n, Pad: p.pad, Left: p.left}, "", false, b, BufMode{})
+					corrWop(o, Op{K: "fixed", N: n + 2, Pad: p.pad, Left: p.left}, "", false, &Val{K: 's', S: b}, nil, BufMode{})
+					l := &Val{K: 'S', Ss: [][]byte{raw(n), raw(n), b}}
+					wl, _ := renderField(Op{K: "fixeds", CW: 2, N: n, Pad: p.pad, Left: p.left, E: "le"}, "", l, nil)
+					corrRop(o, Op{K: "fixeds", CW: 2, N: n, Pad: p.pad, Left: p.left, E: "le"}, "", false, wl, BufMode{})
+				}
+			}
+			o.stat("history-independence-prims")
+			for _, t := range schema.Types {
+				nText := 0
+				for _, op := range t.fieldOps() {
+					if op.K == "fixed" || op.K == "fixeds" {
+						nText++
+					}
+				}
+				if nText < 2 && r > 0 {
+					continue
+				}
+				if nText == 0 {
+					continue
+				}
+				v := g.msg(t.ID, true, 0)
+				for i, op := range t.fieldOps() {
+					switch op.K {
+					case "fixed":
+						if !isUnionKey(t, i) {
+							v.Fs[i] = &Val{K: 's', S: raw(op.N)}
+						}
+					case "fixeds":
+						v.Fs[i] = &Val{K: 'S', Ss: [][]byte{raw(op.N), raw(op.N)}}
+					}
+				}
+				if wire, ok := renderPinned(v); ok {
+					corrDec(o, t.ID, wire, BufMode{})
+					o.stat("history-independence-msgs")
+				}
+			}
+		}
+		return res
+	}
+}
+
+func isUnionKey(t *Type, i int) bool {
+	for _, op := range t.fieldOps() {
+		if op.K == "union" && op.Key == i {
+			return true
+		}
+	}
+	return false
+}
+
+// ---- frames encoded while NO checksum service is registered (codec.Remove / codec.Clear were called): the generated
+// code keeps the caller's Checksum and writes it; byte order (C03), length field (C04) and the rest of the frame must
+// be what the model's `encodeNS` says ----
+func goEncNoSvc(v *Val, pre []byte) EncResult {
+	var saved []any
+	for _, n := range []string{"CRC16", "CRC32", "SSE_BIN", "SZSE_BIN"} {
+		if s, ok := codec.Get(n); ok {
+			saved = append(saved, s)
+			codec.Remove(n)
+		}
+	}
+	defer func() {
+		for _, s := range saved {
+			codec.Registry(s)
+		}
+	}()
+	return goEnc(v, pre, BufMode{})
+}
+
+func noSvcCases(pid string, o *Out, g *Gen, thorough bool) {
+	per := 3
+	if thorough {
+		per = 12
+	}
+	for _, ft := range frameTypes() {
+		if ft.Frame.Cks == "" {
+			continue
+		}
+		es := schema.Tables[ft.Frame.Tbl].Entries
+		for k := 0; k < per; k++ {
+			e := es[g.r.Intn(len(es))]
+			v := g.msgWithKey(ft.ID, e, true)
+			ci := len(ft.Frame.Hdr) + 2
+			stale := []uint64{0x01020304, 0xA1B2C3D4, uint64(g.r.Uint32())}[k%3] & maxOf(ft.Frame.CksW)
+			v.Fs[ci] = &Val{K: 'n', N: stale}
+			var pre []byte
+			if k%2 == 1 {
+				pre = g.bytes(1+g.r.Intn(9), 0)
+			}
+			line := "encns " + hexOf(pre) + " " + v.String()
+			begin(line)
+			r := goEncNoSvc(v, pre)
+			begin("")
+			o.emit(line, r.Line(), fmt.Sprintf("encns:%d:%s", ft.ID, r.Class), true)
+			o.stat("enc-no-service-" + r.Class)
+			if r.Class != "ok" {
+				continue
+			}
+			want := make([]byte, ft.Frame.CksW)
+			putUint(want, ft.Frame.E, stale)
+			n := len(r.Appended)
+			if n < len(want) || !bytes.Equal(r.Appended[n-len(want):], want) {
+				o.violate(Violation{Property: pid, Kind: "direct", What: "frame encoded with no checksum service registered: the trailer is not the caller's checksum in the protocol's byte order",
+					Case: line, Expected: "... " + hexOf(want), Observed: trunc(hexOf(r.Appended), 400), Key: "nosvc:" + ft.QName()})
+			}
+			// the services are back: the ordinary encode must compute the checksum again
+			if r2 := goEnc(v, pre, BufMode{}); r2.Class == "ok" && len(r2.Appended) == n && bytes.Equal(r2.Appended, r.Appended) && stale != 0x01020304 {
+				if ref, ok := renderPinned(v); ok && !bytes.Equal(ref, r2.Appended) {
+					o.violate(Violation{Property: pid, Kind: "direct", What: "after the checksum services were registered again the frame still carries the stale checksum",
+						Case: "enc " + hexOf(pre) + " " + v.String(), Expected: trunc(hexOf(ref), 400), Observed: trunc(hexOf(r2.Appended), 400), Key: "nosvc-restore:" + ft.QName()})
+				}
+			}
+		}
+	}
+}
+
+func init() {
+	for _, pid := range []string{"C03", "C04"} {
+		pid := pid
+		prev := suites[pid]
+		suites[pid] = func(o *Out, g *Gen, thorough bool) map[string]any {
+			res := prev(o, g, thorough)
+			noSvcCases(pid, o, g, thorough)
+			return res
+		}
 	}
 }
